@@ -246,6 +246,9 @@ func (rt *pxRt) newConnection(id string) (goat.RpcReadWriter, error) {
 	if plan == "err" || plan == "slowerr" || plan == "unknown" {
 		r.Res = "err"
 		tr.emit(r)
+		if strings.HasSuffix(id, "-ctx") { // names ending in -ctx fail with a wrapped context error (a dial timeout)
+			return nil, fmt.Errorf("dial %s: %w", id, context.DeadlineExceeded)
+		}
 		return nil, errors.New("verif: dial failed")
 	}
 	c := rt.newConn(id, hn)
@@ -370,6 +373,15 @@ func (rt *pxRt) step(st pxStep) {
 			c.l.c2s.with(func() { tr.emit(e); c.l.c2s.rerr = errInjected })
 		case "wfail":
 			c.l.s2c.with(func() { tr.emit(e); c.l.s2c.werr = errInjected })
+		case "rfailctx": // the same failures with errors that wrap a context error (a websocket bound to a request context ...)
+			e.K = "rfail"
+			c.l.c2s.with(func() { tr.emit(e); c.l.c2s.rerr = fmt.Errorf("read: %w", context.Canceled) })
+		case "wfailctx":
+			e.K = "wfail"
+			c.l.s2c.with(func() { tr.emit(e); c.l.s2c.werr = fmt.Errorf("write: %w", context.DeadlineExceeded) })
+		case "rfailtmp":
+			e.K = "rfail"
+			c.l.c2s.with(func() { tr.emit(e); c.l.c2s.rerr = errTemporary{} })
 		default:
 			panic("verif-harness: unknown fault " + st.What)
 		}
